@@ -3,5 +3,5 @@ From Coq Require Import List Extraction ExtrOcamlBasic.
 From Kenlm Require Import Gen.BinaryFormatConsts C15.IoModel C09.CrashModel.
 Extraction Language OCaml.
 Extraction "extracted/c09_model.ml"
-  finish_shape finish_trace finish_trace_before_fix shapes header_size step run empty_file crash_image mix
+  finish_shape finish_trace finish_trace_before_fix failed_sync_trace shapes header_size step run empty_file crash_image mix
   sanity_size ref_sanity magic_incomplete incomplete_header total_header_sizes list_eqb.
